@@ -197,6 +197,20 @@ func analyseCopyCtor(p *core.Program, cc copyCtor) (res []built) {
 			switch s := n.(type) {
 			case *ast.AssignStmt:
 				for i, l := range s.Lhs {
+					if st, isStar := unparen(l).(*ast.StarExpr); isStar && len(s.Rhs) == len(s.Lhs) {
+						// *x = <struct value>: the whole struct is stored through the pointer
+						if identObj(info, st.X) == o {
+							d := classify(s.Rhs[i], depth+1)
+							if d.all {
+								b.all = true
+								found = true
+							}
+							for f := range d.fields {
+								b.fields[f] = true
+							}
+						}
+						continue
+					}
 					if identObj(info, l) != o {
 						continue
 					}
@@ -257,6 +271,23 @@ func analyseCopyCtor(p *core.Program, cc copyCtor) (res []built) {
 		for f := range laterAssign[o] {
 			b.fields[f] = true
 		}
+		// completion methods called on the value (cpy.allocateBuffers()): the fields they assign through their receiver
+		inspectNoLits(fd.Body, func(n ast.Node) bool {
+			call, ok := n.(*ast.CallExpr)
+			if !ok {
+				return true
+			}
+			sel, ok := unparen(call.Fun).(*ast.SelectorExpr)
+			if !ok || identObj(info, sel.X) != o {
+				return true
+			}
+			if m := calleeFunc(info, call); m != nil {
+				for f := range fieldsAssignedByMethod(p, m, 0) {
+					b.fields[f] = true
+				}
+			}
+			return true
+		})
 		if !found {
 			// named result never assigned as a whole: zero value + field assignments
 			if len(laterAssign[o]) == 0 {
@@ -526,4 +557,54 @@ func fieldsBuiltBy(p *core.Program, fn *types.Func, named *types.Named, depth in
 		return true, nil
 	}
 	return false, inter
+}
+
+// fieldsAssignedByMethod returns the fields a method assigns through its receiver (x.F = …), following the methods it
+// calls on the same receiver.
+func fieldsAssignedByMethod(p *core.Program, m *types.Func, depth int) map[string]bool {
+	res := map[string]bool{}
+	if m == nil || m.Pkg() == nil || depth > 3 {
+		return res
+	}
+	pk := p.ByPath[m.Pkg().Path()]
+	if pk == nil {
+		return res
+	}
+	info := pk.TypesInfo
+	for _, f := range pk.Syntax {
+		for _, d := range f.Decls {
+			fd, ok := d.(*ast.FuncDecl)
+			if !ok || fd.Body == nil || fd.Recv == nil {
+				continue
+			}
+			if o, _ := info.Defs[fd.Name].(*types.Func); o == nil || funcOrigin(o) != funcOrigin(m) {
+				continue
+			}
+			recv := recvObj(info, fd)
+			if recv == nil {
+				return res
+			}
+			if _, isPtr := recv.Type().(*types.Pointer); !isPtr {
+				return res // a value receiver assigns its own copy
+			}
+			ast.Inspect(fd.Body, func(n ast.Node) bool {
+				switch x := n.(type) {
+				case *ast.AssignStmt:
+					for _, l := range x.Lhs {
+						if s, ok := unparen(l).(*ast.SelectorExpr); ok && identObj(info, s.X) == recv {
+							res[s.Sel.Name] = true
+						}
+					}
+				case *ast.CallExpr:
+					if s, ok := unparen(x.Fun).(*ast.SelectorExpr); ok && identObj(info, s.X) == recv {
+						for f := range fieldsAssignedByMethod(p, calleeFunc(info, x), depth+1) {
+							res[f] = true
+						}
+					}
+				}
+				return true
+			})
+		}
+	}
+	return res
 }
